@@ -202,6 +202,7 @@ func runC01(c *eng.Ctx) {
 	c.Rule("ORDER", "kv.family.rollup{commit<clean references}", func() { rollupCommitBeforeClean(c) })
 	c.Rule("SYMMETRY", famT+"{reference key = (source store, source family id, file)}", func() { referenceKeySymmetry(c) })
 	c.Rule("PROV", "kv{edit log family id = the committing family}", func() { editLogOwnID(c) })
+	c.Rule("ERRFLOW", "kv{the outcome of a manifest commit that installs job output reaches the job's caller}", func() { commitResultExamined(c) })
 
 	c.Rule("GUARD", "kv{a table builder is abandoned only when it holds no key}", func() { abandonOnlyWhenNoKeys(c) })
 
